@@ -44,8 +44,13 @@ def run_property(prop, tier, repo, evidence_path=None, quiet=False, write=True):
                 raise AnalysisError("rule %s examined %d instance(s), fewer than the %d confirmed by hand: anchor lost or idiom changed (%s)"
                                     % (r.rule, r.instances, r.floor, r.title))
     except AnalysisError as e:
-        say("ANALYSIS-ERROR property=%s %s" % (prop, e))
-        return 2, [], None, out
+        got = [f for r in (ctx.results if 'ctx' in dir() else []) for f in r.findings]
+        if not got:
+            say("ANALYSIS-ERROR property=%s %s" % (prop, e))
+            return 2, [], None, out
+        # violations already established remain violations; the rest of the
+        # analysis could not be carried out on this tree
+        say("ANALYSIS-INCOMPLETE property=%s %s (reporting the violations found before)" % (prop, e))
     except Exception as e:  # a crash of the checker is never a verdict
         say("ANALYSIS-ERROR property=%s internal error: %r" % (prop, e))
         if not quiet:
